@@ -8,7 +8,6 @@ package main
 // (stack overflow, out of memory) or a hang cannot take the run down.
 
 import (
-	"bytes"
 	"fmt"
 	"path/filepath"
 	"runtime"
@@ -49,13 +48,21 @@ type Stage struct {
 }
 
 type Result struct {
-	ID        int
-	Stages    []Stage
-	TokLine   string
-	ParseLine string
-	Accepted  bool
-	C         []byte
-	NTokens   int
+	ID          int
+	Stages      []Stage
+	TokLine     string
+	ParseLine   string
+	Accepted    bool
+	C           []byte
+	NTokens     int
+	RenderBytes int64
+}
+
+type countWriter struct{ n int64 }
+
+func (w *countWriter) Write(p []byte) (int, error) {
+	w.n += int64(len(p))
+	return len(p), nil
 }
 
 func cpuMillis() int64 {
@@ -201,10 +208,14 @@ func runCase(c *Case, progress progressFunc) *Result {
 				}
 			}
 			if parseOK {
+				// cmd/wuffsfmt renders into a bytes.Buffer; here the bytes are only
+				// counted (deep nesting makes the output quadratic in the input:
+				// 4 spaces per level per line), which keeps the children small.
+				cw := &countWriter{}
 				runStage("fmt.render", res, progress, func() error {
-					buf := &bytes.Buffer{}
-					return render.Render(buf, tm, tokens, comments)
+					return render.Render(cw, tm, tokens, comments)
 				})
+				res.RenderBytes = cw.n
 			}
 		} else if c.Tie {
 			res.ParseLine = "notok"
